@@ -36,7 +36,7 @@ package hamt
 // exists; these fields are never written after construction. An iterator's pad length is
 // non-negative; a hashBits cursor stays within its hash.
 
-//@ props C02 C08 C12 C13 C15
+//@ props C02 C08 C12 C13 C14 C15
 
 //@ spec def wfData(nd *data._UnixFSData) bool = nd != nil && nd.Fanout.m == 2 && nd.Data.m == 2 && nd.Fanout.v.x > 0 && (nd.Fanout.v.x & (nd.Fanout.v.x - 1)) == 0
 //@ spec def shardFanout(n *hamt._UnixFSHAMTShard) int64 = n.data.Fanout.v.x
@@ -74,10 +74,12 @@ package hamt
 
 //@ func hamt.MatchKey
 //@ requires 0 <= maxPadLen && pbLink.Name.m == 2 && len(pbLink.Name.v.x) >= maxPadLen
+//@ ensures whole-unprefixed-name: result <==> substr(pbLink.Name.v.x, maxPadLen, len(pbLink.Name.v.x)) == key
 //@ assigns nothing
 
 //@ func hamt.NewUnixFSHAMTShard
 //@ ensures err == nil ==> result != nil && typeis(result, "*hamt._UnixFSHAMTShard") && fresh(result)
+//@ ensures memo-starts-empty: err == nil ==> result.(*hamt._UnixFSHAMTShard).cachedLength == -1
 //@ ensures err == nil ==> result.(*hamt._UnixFSHAMTShard)._substrate == substrate && result.(*hamt._UnixFSHAMTShard).data == data && result.(*hamt._UnixFSHAMTShard).lsys == lsys
 //@ ensures err != nil ==> result == nil
 
@@ -108,3 +110,25 @@ package hamt
 //@ ensures requests-bounded-by-path: loads - hv.consumed <= old(loads) - old(hv.consumed)
 //@ ensures consumed-grows: old(hv.consumed) <= hv.consumed
 //@ decreases len(hv.b) * 8 - hv.consumed
+
+// The length memo is either the "not yet counted" sentinel -1 or a count; a counted shard is never
+// walked again (this is what keeps Length()/preload linear on DAGs with shared sub-shards).
+//@ props C06 C13 C20
+//@ func (*hamt._UnixFSHAMTShard).length
+//@ ensures memo-hit: old(n.cachedLength) != -1 ==> err == nil && result == old(n.cachedLength) && loads == old(loads)
+//@ ensures memo-set: err == nil ==> n.cachedLength == result
+//@ ensures error-is-reported: err != nil ==> result == 0
+
+// C12: after every step of the nested iterator, an exhausted child iterator has been dropped (also
+// when the step reported an error), so one missing shard yields exactly one error and iteration
+// moves on.
+//@ props C12 C13
+//@ spec def itrDone(i *hamt._UnixFSShardedDir__ListItr) bool = i.childIter == nil && i._substrate.idx >= len(i._substrate.n.x)
+//@ func (*hamt._UnixFSShardedDir__ListItr).Done
+//@ ensures result <==> itrDone(itr)
+//@ assigns nothing
+
+//@ func (*hamt._UnixFSShardedDir__ListItr).next
+//@ ensures exhausted-child-is-dropped: itr.childIter != nil ==> !itrDone(itr.childIter)
+//@ func (*hamt._UnixFSShardedDir__ListItr).Next
+//@ ensures exhausted-child-is-dropped: itr.childIter != nil ==> !itrDone(itr.childIter)
